@@ -806,7 +806,7 @@ impl<'a> Visitor<'a> {
     /// <https://sass-lang.com/documentation/at-rules/import#finding-the-file>
     /// <https://sass-lang.com/documentation/at-rules/import#load-paths>
     #[allow(clippy::cognitive_complexity, clippy::redundant_clone)]
-    pub fn find_import(&self, path: &Path) -> Option<PathBuf> {
+    pub fn find_import(&self, path: &Path, for_import: bool) -> Option<PathBuf> {
         let path_buf = if path.is_absolute() {
             path.into()
         } else {
@@ -834,23 +834,44 @@ impl<'a> Visitor<'a> {
             };
         }
 
-        if path_buf.extension() == Some(OsStr::new("scss"))
-            || path_buf.extension() == Some(OsStr::new("sass"))
-            || path_buf.extension() == Some(OsStr::new("css"))
-        {
-            let extension = path_buf.extension().unwrap();
-            try_path!(path_buf.with_extension(format!(".import{}", extension.to_str().unwrap())));
-            try_path!(path_buf);
-            // todo: consider load paths
+        let explicit_extension = path_buf
+            .extension()
+            .and_then(OsStr::to_str)
+            .filter(|ext| matches!(*ext, "scss" | "sass" | "css"))
+            .map(str::to_owned);
+
+        // A URL that already names a stylesheet is only tried literally and as a partial
+        // (for `@import`, preceded by its import-only sibling `name.import.ext`), first
+        // relative to the importing file and then in every load path.
+        if let Some(extension) = explicit_extension {
+            macro_rules! try_explicit {
+                ($path:expr) => {
+                    let path: PathBuf = $path;
+                    if for_import {
+                        try_path!(path.with_extension(format!("import.{}", extension)));
+                    }
+                    try_path!(path);
+                };
+            }
+
+            try_explicit!(path_buf.clone());
+
+            for load_path in &self.options.load_paths {
+                try_explicit!(load_path.join(path));
+            }
+
             return None;
         }
 
         macro_rules! try_path_with_extensions {
             ($path:expr) => {
                 let path = $path;
-                try_path!(add_extension(path.as_ref(), "import.sass"));
-                try_path!(add_extension(path.as_ref(), "import.scss"));
-                try_path!(add_extension(path.as_ref(), "import.css"));
+                // import-only files are only visible to `@import`
+                if for_import {
+                    try_path!(add_extension(path.as_ref(), "import.sass"));
+                    try_path!(add_extension(path.as_ref(), "import.scss"));
+                    try_path!(add_extension(path.as_ref(), "import.css"));
+                }
                 try_path!(add_extension(path.as_ref(), "sass"));
                 try_path!(add_extension(path.as_ref(), "scss"));
                 try_path!(add_extension(path.as_ref(), "css"));
@@ -892,10 +913,10 @@ impl<'a> Visitor<'a> {
     fn import_like_node(
         &mut self,
         url: &str,
-        _for_import: bool,
+        for_import: bool,
         span: Span,
     ) -> SassResult<StyleSheet> {
-        if let Some(name) = self.find_import(url.as_ref()) {
+        if let Some(name) = self.find_import(url.as_ref(), for_import) {
             let name = self.options.fs.canonicalize(&name).unwrap_or(name);
             if let Some(style_sheet) = self.import_cache.get(&name) {
                 return Ok(style_sheet.clone());
